@@ -84,7 +84,39 @@ type host struct {
 	priv    ed25519.PrivateKey
 }
 
-func startHost(logw io.Writer) (*host, error) {
+// allowAll: an Authorizer that allows everything, so that the authorization
+// code path of the realm runs for every message without changing behaviour.
+type allowAll struct{}
+
+func (allowAll) Authorize(*wamp.Session, wamp.Message) (bool, error) { return true, nil }
+
+// numConfigs router configurations the hostile streams are run against:
+//
+//	0  realm1: anonymous + ticket/wampcra/cryptosign, disclosure allowed, meta kill/modify, history on
+//	   hist.topic / histp.; realm2: strict URIs, local auth + authz, an Authorizer that denies, fails and
+//	   writes session details, MetaStrict; a bare realm template
+//	1  realm1: disclosure allowed AND event history (exact, prefix, wildcard) over the topics the streams
+//	   publish to, MetaStrict with extra details, an allow-all Authorizer that local sessions go through too
+//	2  no realm1 configured: it is created from the realm template on the first HELLO (disclosure, history,
+//	   strict URIs, meta kill/modify, local peers must authenticate)
+//	3  realm1 with everything optional switched off (no disclosure, no history, no meta kill/modify, no template)
+const numConfigs = 4
+
+func historyEverywhere() []*router.TopicEventHistoryConfig {
+	var out []*router.TopicEventHistoryConfig
+	for _, t := range []string{"hist.topic", "tc.topic", "sc.t", "rs.t", "dr.topic", "nf.topic", "vs.topic", "c04.probe.topic", "bu.t.x"} {
+		out = append(out, &router.TopicEventHistoryConfig{Topic: wamp.URI(t), MatchPolicy: "exact", Limit: 3})
+	}
+	for _, t := range []string{"histp.", "tc.", "bu.", "dr.", "sc.", "r."} {
+		out = append(out, &router.TopicEventHistoryConfig{Topic: wamp.URI(t), MatchPolicy: "prefix", Limit: 2})
+	}
+	for _, t := range []string{"tc..x", "bu..x", "r..c"} {
+		out = append(out, &router.TopicEventHistoryConfig{Topic: wamp.URI(t), MatchPolicy: "wildcard", Limit: 2})
+	}
+	return out
+}
+
+func startHost(logw io.Writer, variant int) (*host, error) {
 	priv := ed25519.NewKeyFromSeed(edSeed[:32])
 	ks := &keyStore{pub: priv.Public().(ed25519.PublicKey)}
 	mkAuth := func() []auth.Authenticator {
@@ -94,8 +126,15 @@ func startHost(logw io.Writer) (*host, error) {
 			auth.NewCryptoSignAuthenticator(ks, 500*time.Millisecond),
 		}
 	}
-	cfg := &router.Config{
-		RealmConfigs: []*router.RealmConfig{
+	realm2 := &router.RealmConfig{
+		URI: "realm2", StrictURI: true, AnonymousAuth: true, Authenticators: mkAuth(),
+		RequireLocalAuth: true, RequireLocalAuthz: true, Authorizer: &authorizer{},
+		MetaStrict: true, MetaIncludeSessionDetails: []string{"foo"}, EnableMetaKill: true, EnableMetaModify: true,
+	}
+	cfg := &router.Config{Debug: os.Getenv("C04_ROUTER_DEBUG") != ""}
+	switch variant % numConfigs {
+	case 0:
+		cfg.RealmConfigs = []*router.RealmConfig{
 			{
 				URI: "realm1", AnonymousAuth: true, AllowDisclose: true, Authenticators: mkAuth(),
 				EnableMetaKill: true, EnableMetaModify: true,
@@ -104,14 +143,34 @@ func startHost(logw io.Writer) (*host, error) {
 					{Topic: "histp.", MatchPolicy: "prefix", Limit: 2},
 				},
 			},
+			realm2,
+		}
+		cfg.RealmTemplate = &router.RealmConfig{AnonymousAuth: true}
+	case 1:
+		cfg.RealmConfigs = []*router.RealmConfig{
 			{
-				URI: "realm2", StrictURI: true, AnonymousAuth: true, Authenticators: mkAuth(),
-				RequireLocalAuth: true, RequireLocalAuthz: true, Authorizer: &authorizer{},
-				MetaStrict: true, MetaIncludeSessionDetails: []string{"foo"}, EnableMetaKill: true, EnableMetaModify: true,
+				URI: "realm1", AnonymousAuth: true, AllowDisclose: true, Authenticators: mkAuth(),
+				EnableMetaKill: true, EnableMetaModify: true, TopicEventHistoryConfigs: historyEverywhere(),
+				MetaStrict: true, MetaIncludeSessionDetails: []string{"color", "foo"},
+				Authorizer: allowAll{}, RequireLocalAuthz: true,
 			},
-		},
-		RealmTemplate: &router.RealmConfig{AnonymousAuth: true},
-		Debug:         os.Getenv("C04_ROUTER_DEBUG") != "",
+			realm2,
+		}
+		cfg.RealmTemplate = &router.RealmConfig{AnonymousAuth: true, AllowDisclose: true, EnableMetaKill: true}
+	case 2:
+		cfg.RealmConfigs = []*router.RealmConfig{realm2}
+		cfg.RealmTemplate = &router.RealmConfig{
+			AnonymousAuth: true, AllowDisclose: true, Authenticators: mkAuth(), StrictURI: true,
+			EnableMetaKill: true, EnableMetaModify: true, RequireLocalAuth: true,
+			TopicEventHistoryConfigs: []*router.TopicEventHistoryConfig{
+				{Topic: "hist.topic", MatchPolicy: "exact", Limit: 2},
+				{Topic: "tc.", MatchPolicy: "prefix", Limit: 2},
+				{Topic: "dr.topic", MatchPolicy: "exact", Limit: 2},
+				{Topic: "sc..", MatchPolicy: "wildcard", Limit: 2},
+			},
+		}
+	case 3:
+		cfg.RealmConfigs = []*router.RealmConfig{{URI: "realm1", AnonymousAuth: true, Authenticators: mkAuth()}, realm2}
 	}
 	r, err := router.NewRouter(cfg, log.New(logw, "", 0))
 	if err != nil {
@@ -286,7 +345,19 @@ type runStats struct {
 	Got         map[string]int `json:"replies"`
 }
 
+// hostState: one router configuration hosted by the worker, with the probe
+// sessions attached to it.
+type hostState struct {
+	h      *host
+	probeA *sess
+	probeB *sess
+	probeN int
+}
+
 type worker struct {
+	hosts    map[int]*hostState
+	cfg      int
+	logw     io.Writer
 	h        *host
 	probeA   *sess
 	probeB   *sess
@@ -703,6 +774,29 @@ func (w *worker) runHistory(h *History) runStats {
 	return st
 }
 
+// useConfig switches the worker to the router of the given configuration
+// (started on first use); the probe sessions belong to the configuration.
+func (w *worker) useConfig(c int) error {
+	c = ((c % numConfigs) + numConfigs) % numConfigs
+	if c == w.cfg {
+		return nil
+	}
+	cur := w.hosts[w.cfg]
+	cur.probeA, cur.probeB, cur.probeN = w.probeA, w.probeB, w.probeN
+	hs := w.hosts[c]
+	if hs == nil {
+		h, err := startHost(w.logw, c)
+		if err != nil {
+			return err
+		}
+		hs = &hostState{h: h}
+		w.hosts[c] = hs
+	}
+	w.cfg, w.h = c, hs.h
+	w.probeA, w.probeB, w.probeN = hs.probeA, hs.probeB, hs.probeN
+	return nil
+}
+
 // progress tells the parent (fd 3) which top-level step is about to run.
 func (w *worker) progress(i int) {
 	if w.prog == nil {
@@ -844,7 +938,7 @@ func workerMain() {
 	if os.Getenv("C04_ROUTER_LOG") != "" {
 		logw = os.Stderr
 	}
-	h, err := startHost(logw)
+	h, err := startHost(logw, 0)
 	if err != nil {
 		fmt.Fprintln(os.Stderr, "c04drive worker: cannot start router:", err)
 		os.Exit(4)
@@ -862,7 +956,7 @@ func workerMain() {
 		os.Exit(4)
 	}
 	protoOut := os.NewFile(uintptr(protoFd), "protocol")
-	w := &worker{h: h, timeMult: mult}
+	w := &worker{h: h, timeMult: mult, logw: logw, hosts: map[int]*hostState{0: {h: h}}}
 	if f := os.NewFile(3, "progress"); f != nil {
 		if _, err := f.Stat(); err == nil {
 			w.prog = f
@@ -884,6 +978,10 @@ func workerMain() {
 				os.Exit(4)
 			}
 			t0 := time.Now()
+			if err := w.useConfig(req.History.Config); err != nil {
+				fmt.Fprintln(os.Stderr, "c04drive worker: cannot start router configuration:", err)
+				os.Exit(4)
+			}
 			st := w.runHistory(req.History)
 			rsp := workerRsp{ID: req.ID, OK: true, Stats: st}
 			if perr := w.probe(); perr != nil {
